@@ -33,13 +33,13 @@ enum ProbeId { P_returned, P_threw_std_exception, P_threw_in_setup, P_file_sourc
                P_eio_while_reading, P_read_after_short_read, P_progname_without_slash, P_progname_len_0_or_1,
                P_progname_long, P_progname_only_slashes, P_double_dash_word, P_control_char_word, P_punct_only_word,
                P_nul_in_file, P_long_line_in_file, P_usage_printed, P_subgroup, P_evaluated_twice, P_many_words, P_groups_evaluation,
-               P_nested_argument_files };
+               P_nested_argument_files, P_empty_argument_vector };
 const char* const kProbeNames[] = { "evaluation_returned", "threw_std_exception", "threw_in_setup", "file_source_read",
                "env_source_read", "argument_file_argument_read", "eio_while_reading_a_source", "read_after_short_read",
                "program_name_without_slash", "program_name_of_length_0_or_1", "program_name_longer_than_200",
                "program_name_only_slashes", "double_dash_word", "control_character_word", "punctuation_only_word",
                "nul_byte_in_file", "line_longer_than_1000_in_file", "usage_printed", "sub_group", "same_handler_evaluated_twice",
-               "more_than_12_words", "two_handlers_through_groups_singleton", "argument_files_opened_three_or_more_times" };
+               "more_than_12_words", "two_handlers_through_groups_singleton", "argument_files_opened_three_or_more_times", "argument_vector_of_zero_words" };
 
 using recipes::randomBytes;
 using recipes::punctWord;
@@ -133,6 +133,7 @@ public:
       plan[ "arg_file_arg"] = cfg.chance( 1, 3);
       plan[ "named_env"] = cfg.chance( 1, 4);
       plan[ "repeat"] = cfg.chance( 1, 8) ? 2 : 1;
+      if (cfg.chance( 1, 50)) plan[ "no_program_name"] = true;
       // a minority of runs: two handlers from the Groups singleton, evaluated
       // through Groups::evalArguments(); the second one takes the list recipes
       if (cfg.chance( 1, 6))
@@ -339,6 +340,13 @@ public:
       if (ctrl) st.probe( P_control_char_word);
       if (punct) st.probe( P_punct_only_word);
       if (cfg.argv.size() > 13) st.probe( P_many_words);
+      // an argument vector of zero words: main( 0, { nullptr }) - what execve()
+      // with an empty argv gives a program
+      if (plan.geti( "no_program_name", 0) != 0)
+      {
+         cfg.argv.clear();
+         st.probe( P_empty_argument_vector);
+      }
       if (argv0.find( '/') == std::string::npos) st.probe( P_progname_without_slash);
       if (argv0.size() <= 1) st.probe( P_progname_len_0_or_1);
       if (argv0.size() > 200) st.probe( P_progname_long);
